@@ -926,6 +926,47 @@ example : seesOf 0 (run exAcyclic [1, 0, 2]).log = [Event.sees 0 1 .processed, E
   rw [body_view_acyclic exAcyclic exRank exAcyclic_ranked [1, 0, 2] (by decide) 0 (by decide)]
   decide
 
+/-! ## nothing makes the scheduler enter a package before its sub-modules (hunter finding 3)
+
+`getProcessedModule(t)` processes `t` itself, not the packages above it.  Python always runs `pkg/__init__.py` before
+`pkg/core.py`; here a root that is taken up first and asks for `pkg.core` enters `pkg.core` first, and the package's
+`__init__` — pulled in by `from . import util` inside `pkg.core` — then finds its own sub-module half analysed.  The
+theorems above are about the scheduler as it is (drain, once, final states, what a body observes in an acyclic import
+graph) and stay true; what the package's body then makes of the half-analysed sub-module (a re-export that finds
+nothing) is the open finding `order-dependent:submodule-analysed-before-its-package` of the direct oracle.
+
+The full statement that does NOT hold of the current code:
+  `∀ mods parent order, Reachable parent order → ∀ m p, parent m = some p →
+     startPos (run mods order).log p < startPos (run mods order).log m`. -/
+
+/-- position of `start m` in a log (its length when `m` is never entered) -/
+def startPos (l : List Event) (m : Nat) : Nat := l.idxOf (Event.start m)
+
+/-- hunt/C06/3: 0 = app.py (`from pkg.core import Base`), 1 = pkg/__init__.py (`from .core import Base`),
+2 = pkg/core.py (`from . import util`: asks for `pkg`, then for `pkg.util`), 3 = pkg/util.py -/
+def exPkg : List Mod := [⟨true, [2]⟩, ⟨true, [2]⟩, ⟨true, [1, 3]⟩, ⟨true, []⟩]
+
+theorem exPkg_log_root_first : (run exPkg [0, 1, 2, 3]).log =
+    [.start 0, .visit 0, .start 2, .visit 2, .start 1, .visit 1, .sees 1 2 .processing, .finish 1, .sees 2 1 .processed,
+     .start 3, .visit 3, .finish 3, .sees 2 3 .processed, .finish 2, .sees 0 2 .processed, .finish 0] := by
+  simp [run, process, processModule, visitBody, initState, getSt, setSt, exPkg]
+
+theorem exPkg_log_package_first : (run exPkg [1, 2, 3, 0]).log =
+    [.start 1, .visit 1, .start 2, .visit 2, .sees 2 1 .processing, .start 3, .visit 3, .finish 3, .sees 2 3 .processed,
+     .finish 2, .sees 1 2 .processed, .finish 1, .start 0, .visit 0, .sees 0 2 .processed, .finish 0] := by
+  simp [run, process, processModule, visitBody, initState, getSt, setSt, exPkg]
+
+/-- **submodule_before_package_counterexample** (C06): both orders are reachable (package 1 before its modules 2, 3;
+the root 0 before or after the package).  With the package first it is entered before its sub-module and obtains it
+in its final state; with the root first the sub-module is entered BEFORE its package, and the package's body obtains
+its own sub-module while that is still being analysed. -/
+theorem submodule_before_package_counterexample :
+    startPos (run exPkg [1, 2, 3, 0]).log 1 < startPos (run exPkg [1, 2, 3, 0]).log 2 ∧
+    Event.sees 1 2 .processed ∈ (run exPkg [1, 2, 3, 0]).log ∧
+    startPos (run exPkg [0, 1, 2, 3]).log 2 < startPos (run exPkg [0, 1, 2, 3]).log 1 ∧
+    Event.sees 1 2 .processing ∈ (run exPkg [0, 1, 2, 3]).log := by
+  rw [exPkg_log_root_first, exPkg_log_package_first]; decide
+
 end Schedule
 
 /-! ## `_inherits_instance_variable_kind`: the kinds computed by the post-processing pass do not depend
